@@ -99,7 +99,7 @@ func (d *vfData) writeAt(p []byte, off int64) (int, error) {
 		copy(b[bo:bo+chunk], p[i:i+chunk])
 		i += chunk
 	}
-	if off+n > d.size {
+	if n > 0 && off+n > d.size {
 		d.size = off + n
 	}
 	return int(n), nil
